@@ -126,6 +126,37 @@ class QResult:
         self.divisors = 0
 
 
+_TOK = re.compile(r'\|[^|]+\||[A-Za-z_][A-Za-z0-9_.$#!@:\[\]]*')
+
+
+def slice_forms(forms):
+    """cone of influence of the assertions: drops definitions/declarations no assertion depends on"""
+    defs = {}
+    for i, t in enumerate(forms):
+        m = re.match(r'^\((?:define-fun|declare-fun) (\|[^|]+\||[^ ()]+) ', t)
+        if m:
+            defs[m.group(1)] = i
+    keep = set()
+    work = []
+    for i, t in enumerate(forms):
+        if not re.match(r'^\((?:define-fun|declare-fun) ', t):
+            keep.add(i)
+            work.append(i)
+    while work:
+        i = work.pop()
+        t = forms[i]
+        body = t
+        m = re.match(r'^\((?:define-fun|declare-fun) (?:\|[^|]+\||[^ ()]+) ', t)
+        if m:
+            body = t[m.end():]
+        for tok in _TOK.findall(body):
+            j = defs.get(tok)
+            if j is not None and j not in keep:
+                keep.add(j)
+                work.append(j)
+    return [t for i, t in enumerate(forms) if i in keep]
+
+
 def _aliases(forms):
     al = {}
     rx = re.compile(r'^\(define-fun (\|[^|]+\|) \(\) Real (\|[^|]+\|)\)$')
@@ -178,7 +209,14 @@ def trig_axioms(forms, zero_axiom=False):
                 raise Undecided("sin/cos application not replaced")
         new.append(t)
     decl = []
-    simple = re.compile(r'^(%s|\(\* 2\.0 %s\))$' % (_SYM, _SYM))
+    free = set(m.group(1) for t in forms for m in [re.match(r'^\(declare-fun (\|[^|]+\|) \(\) Real\)$', t)] if m)
+
+    class _Simple:      # an argument is simple iff it is a free real constant or twice one (distinct simple arguments are independent)
+        @staticmethod
+        def match(c):
+            m = re.match(r'^(?:(%s)|\(\* 2\.0 (%s)\))$' % (_SYM, _SYM), c)
+            return bool(m) and ((m.group(1) or m.group(2)) in free)
+    simple = _Simple
     defined = set()
     # definitional double angle: class k has text (* 2.0 X) with X another class
     for k, c in enumerate(classes):
@@ -261,6 +299,7 @@ def run_query(q, bdir, inc=()):
         r.detail = str(e)
         return r
     r.divisors = len(sw.divisors)
+    forms = slice_forms(forms)
     ax = []
     if q.trig:
         forms, ax, r.n_trig = trig_axioms(forms, getattr(q, 'zero_axiom', False))
@@ -309,7 +348,8 @@ def portfolio_named(base, timeout, stage1=4.0):
     """z3 with the nlsat tactic first (by far the fastest on these polynomial identities); if it has no answer after
     `stage1` seconds, z3 (default strategy) and cvc5 join.  First definitive answer wins."""
     t0 = time.time()
-    procs = [("z3-nlsat", _spawn(["z3", "-T:%d" % timeout, base + ".nl.smt2"]))]
+    procs = [("z3-nlsat", _spawn(["z3", "-T:%d" % timeout, base + ".nl.smt2"])),
+             ("z3new-nlsat", _spawn(["z3-new", "-T:%d" % timeout, base + ".nl.smt2"]))]
     ans, who, out = "unknown", "", ""
     pending = list(procs)
     joined = False
